@@ -738,6 +738,8 @@ bool GennaroJareckiKrawczykRabinDKG::Generate
 							err << "P_" << i << ": shares adjusted 1(d) from P_" << j << std::endl;
 							mpz_set(s_ij[j][i], s);
 							mpz_set(sprime_ij[j][i], sprime);
+							// keep $g^{s_{ji}}$ (used for equation (5)) consistent
+							tmcg_mpz_fspowm(fpowm_table_g, g__s_ij[j][i], g, s_ij[j][i], p);
 						}
 
 					}
